@@ -5,6 +5,23 @@ import json, os, subprocess
 ROOT = os.path.dirname(os.path.dirname(os.path.abspath(__file__)))
 
 CLAIMED = {
+ "C17": dict(
+   text="Launch/Concurrent.v: one host descriptor table and syscall.ForkLock shared by ANY number of goroutines - launchers (clone with the "
+        "lock held for writing, the child keeps a copy of the table), goroutines that own an inheritable descriptor under ForkLock.RLock "
+        "until they mark it close-on-exec, goroutines whose descriptors are close-on-exec from birth - stepping in ANY interleaving; waits by "
+        "process group; any number of callers of one environment behind its mutex.  Theorems (invariants by induction over the schedule): "
+        "C17_fd_noninterference (the table a launched program inherits holds no descriptor of another goroutine), "
+        "C17_no_reader_while_cloning, C17_wait_disjoint, C17_env_mutual_exclusion, C17_env_serialised (the protocol steps on the socket are "
+        "a sequence of whole calls, i.e. a history of the C10 LTS).  Tie on every run: 6 sets of 16 workloads mixing ptrace, namespace and "
+        "container runs (3 environments, concurrent calls on one of them, cancelled and signalled programs, process trees) run one by one "
+        "and all at once in one host process with 8 background goroutines creating inheritable descriptors under the RLock protocol: "
+        "verdict, exit value and the descriptor table reported by each program must be identical, and nothing may hang.",
+   note="Partial: the tie samples schedules, the theorems quantify over all interleavings of the model's atomic steps; that these steps are "
+        "atomic where the code is (each library descriptor born close-on-exec, clone inside the write-locked section) is the trusted link, "
+        "exercised by the background goroutines.  The model has no executable comparison with the code beyond these runs (level: theorem "
+        "about the protocol + differential runs).  Trusted: Coq kernel.",
+   technique="Coq proof of lock-protocol invariants over all interleavings of unboundedly many goroutines + alone-versus-concurrent differential runs",
+   design="§5 C17"),
  "C20": dict(
    text="Cgroup/Tree.v: handles over per-controller directory trees (v1: five controllers; v2: the same code with one), `create` (per "
         "controller an atomic mkdir; an existing directory is skipped and makes the handle `existing` iff nothing was created before it), "
